@@ -503,3 +503,81 @@ def mon_tick_provenance(scn, run):
 
 
 ALL_SIM_MONITORS["tick_provenance"] = mon_tick_provenance
+
+
+# ------------------------------------------------------------------ linear law (C12), merging (C06), system outputs (C02)
+def mon_linear_law(scn, run):
+    """with zero processing cost: simTime - t0 == speed * (real - real_of_initial_tick) at every tick
+    (never behind: a tick's simulation time is never below the initial time either)"""
+    out = []
+    tid = master_tid(run)
+    num, den = scn.get("speed", [1, 1])
+    t0 = scn.get("t0", 0)
+    calls = [e for e in run["trace"].of("t-call") if e["tid"] == tid]
+    if not calls:
+        return out
+    r0 = calls[0]["real"]
+    zero_cost = all(d.get("beh", {}).get("cost", 0) == 0 for d in S.devices(scn))
+    for c in calls[1:]:
+        if c["time"] < t0:
+            out.append(V("tick-before-initial-time", f"tick @{c['time']} is before the initial time {t0}"))
+        elif zero_cost and not scn.get("step_cost_ns") and abs((c["time"] - t0) * den - (c["real"] - r0) * num) > max(num, den):
+            out.append(V("linear-law-broken", f"tick @{c['time']} started at real +{c['real'] - r0}ns: simTime - t0 = {c['time'] - t0}, speed*elapsed = {(c['real'] - r0) * num / den}"))
+    return out
+
+
+def mon_merged(scn, run):
+    """C06: components due at the same time share one tick: two consecutive master ticks at the SAME time
+    are a violation when the second one's roots had already asked (callback pending or interrupt raised)
+    before the first one started"""
+    out = []
+    tr = run["trace"]
+    tid = master_tid(run)
+    calls = [e for e in tr.of("t-call") if e["tid"] == tid]
+    ups = tr.of("update")
+    raises = [e for e in tr.of("raise") if e.get("ok")]
+    top_devs = {c["name"] for c in scn["components"] if c["kind"] == "dev"}
+    for a, b in zip(calls, calls[1:]):
+        if a["time"] != b["time"] or calls.index(a) == 0:
+            continue
+        for r in b["roots"]:
+            if r not in top_devs or r in a["roots"]:
+                continue
+            asked_cb = any(u["comp"] == r and u["n"] < a["n"] and u.get("call_at") == b["time"] for u in ups) and \
+                not any(u["comp"] == r and u["n"] < a["n"] and u.get("call_at") not in (None, b["time"]) and u["n"] > max([x["n"] for x in ups if x["comp"] == r and x.get("call_at") == b["time"]], default=0) for u in ups)
+            asked_int = any(x["comp"] == r and x["step"] <= a["step"] - 2 for x in raises) and not any(c2["n"] < a["n"] and r in c2["roots"] and c2["n"] > max([x["n"] for x in raises if x["comp"] == r and x["n"] < a["n"]], default=0) for c2 in calls)
+            if asked_cb or asked_int:
+                out.append(V("same-time-not-merged", f"two master ticks @{a['time']}: roots {a['roots']} then {b['roots']}, although {r} was already due when the first one started", comp=r))
+    return out
+
+
+def mon_system_output(scn, run):
+    """C02/C09 at the system boundary: what a system component reports upward in a tick is exactly what its
+    `expose` mock component was given in that inner tick (nothing when `expose` was skipped)"""
+    out = []
+    tr = run["trace"]
+    sys_names = {s["name"] for s in S.systems(scn)}
+    # inner ticker -> system name: the ticker whose wiring has EXPOSE and whose real components are the system's children
+    owner = {}
+    for e in tr.of("t-new"):
+        comps = set(e["wiring"].keys())
+        for s in S.systems(scn):
+            kids = {c["name"] for c in s["components"]}
+            if kids and kids <= comps and S.EXPOSE in comps | {b for p in e["wiring"].values() for ins in p.values() for b, _ in ins}:
+                owner[e["tid"]] = s["name"]
+    given = {}
+    for e in tr.events:
+        if e["k"] == "t-call" and e.get("tid") in owner:
+            given[(owner[e["tid"]], e["time"])] = {}
+        elif e["k"] == "t-dispatch" and e.get("tid") in owner and e["comp"] == S.EXPOSE and e["dk"] == "input":
+            given[(owner[e["tid"]], e["time"])] = dict(e["changes"])
+        elif e["k"] == "produce" and e["msg"]["m"] == "Output" and e["msg"]["source"] in sys_names:
+            key = (e["msg"]["source"], e["msg"]["time"])
+            if key in given and e["msg"]["changes"] != given[key]:
+                out.append(V("system-output-not-exposed-changes", f"system {key[0]} @t={key[1]} reported changes {e['msg']['changes']} but its expose was given {given[key]}", comp=key[0]))
+    return out
+
+
+ALL_SIM_MONITORS["linear_law"] = mon_linear_law
+ALL_SIM_MONITORS["merged"] = mon_merged
+ALL_SIM_MONITORS["system_output"] = mon_system_output
